@@ -51,7 +51,7 @@ ASSUMPTIONS = [
     "object it is called on (adapter applied last) and through nothing else; whether a prefixed connection that a caller "
     "cached before add_adapter on the caller's own connection sees the added adapter is not determined by the property "
     "(the code keeps the cached one; model = code, no oracle verdict)",
-    "single-threaded use (request ids under concurrency are C16); the value of X-Request-ID is not compared",
+    "single-threaded use (request ids under concurrency are C16); the value of a GENERATED X-Request-ID is not compared (a caller-supplied one is)",
 ]
 MODELLED = ("ak/conn_http.py RequestArguments, the adapters, _HttpConnBase.__init__/add_adapter/get..patch, "
             "_HttpConnImpl.__init__ (address, request-id switch) and do_request up to the opener call and the response "
@@ -1236,7 +1236,7 @@ TECHNIQUE = ("Coq proof on a hand-written executable Gallina HEAP model (mutable
              "round trips.  Tied to the code per run by the correspondence check (vm_compute of the model vs the implementation on "
              "random programs, incl. programs with add_adapter) and by clauses / literal keys regenerated from the source (ast, "
              "fail closed) on which source_clauses states the obligations.")
-LEVEL_TEXT = ("Model-level theorems (coq/C17/Props.v, 30 theorems + 8 examples, all closed), quantified over ALL chains, ALL request "
+LEVEL_TEXT = ("Model-level theorems (coq/C17/Props.v, 32 theorems + 8 examples, all closed), quantified over ALL chains, ALL request "
               "arguments and ALL operation sequences (programs over wrap / Caller / clone(None|adapter|list) / component lookup with "
               "the per-prefix cache / request / new caller objects) -- FULL: chain_applied_once + wrapper_call_chain (a request "
               "= spec_of the adapters of the whole chain, own first then the parent's ..., each once in that order; component "
@@ -1246,7 +1246,7 @@ LEVEL_TEXT = ("Model-level theorems (coq/C17/Props.v, 30 theorems + 8 examples, 
               "when the caller passes 'authorization' in another spelling), auth_decodes + codec_roundtrip (base64 and utf-8 are "
               "MODELLED in Codec.v; b64_dec(b64 x) = x and utf8_decode(utf8 s) = s proved for all byte / code-point strings, so the "
               "value decodes to login:password / id:secret; the decoders are the model's, the encoders are compared with the "
-              "standard library on every case), two_auth_refused, no_auth_no_header, url_formula, body_encoding + "
+              "standard library on every case), two_auth_refused, no_auth_no_header, request_one_auth + request_shape (the same end to end for every successful request through a connection of a reachable state), url_formula, body_encoding + "
               "body_never_dropped + json_body (every non-None body is sent, falsy ones included: b'' '' {} [] 0 False), frame "
               "(no existing heap cell and no caller object changes), noninterference (requests through existing connections and "
               "wrapper calls on existing callers observe the same after any such sequence), same_objects_reused, clone_list (after "
